@@ -618,6 +618,7 @@ func (c *Ctx) pfFact(s string) {
 
 type pfCall struct {
 	bytes []value
+	ok    *sym.Term
 }
 
 func extParseFloat(fr *frame, a []value) value {
@@ -639,7 +640,21 @@ func extParseFloat(fr *frame, a []value) value {
 	for _, s := range c.PFLearned[len(bs)] {
 		c.pfFact(s)
 	}
-	c.pfCalls = append(c.pfCalls, pfCall{bytes: bs})
+	c.pfCalls = append(c.pfCalls, pfCall{bytes: bs, ok: okT})
+	if len(bs) <= 2 {
+		// strings of at most two bytes: the stub is made exact. Every string the real ParseFloat
+		// accepts is enumerated (digits, sign, point), and a rejected string yields +0.
+		var alts []*sym.Term
+		for _, cand := range pfCandidates(len(bs)) {
+			if _, err := strconv.ParseFloat(cand, 64); err == nil {
+				alts = append(alts, c.bytesEq(bs, strBytes(cand)))
+			}
+		}
+		c.addPC(c.B.Implies(okT, c.B.Or(alts...)))
+		if c.Mode == Machine {
+			c.addPC(c.B.Implies(c.B.Not(okT), c.B.Eq(valT, c.B.F64C(0))))
+		}
+	}
 	if c.Branch(okT) {
 		return tuple{c.mkval(valT, types.Float64), iface{}}
 	}
